@@ -72,3 +72,5 @@ func ZzC13U1zL3() { zzC13(zzU1z(), 3) }
 func ZzC13U9P3L2() { zzC13P(zzU9(), zzU9Preamble(), 2) }
 func ZzC02U9P3L2() { zzC02P(zzU9(), zzU9Preamble(), 2) }
 func ZzC02U9P3L3() { zzC02P(zzU9(), zzU9Preamble(), 3) }
+
+func ZzC02U5L3() { zzC02(zzU5(), 3) }
